@@ -2,7 +2,7 @@
 import ast
 from ..core import (AnalysisError, U, calls_in, call_tail, call_recv, call_name, body_walk, kwarg)
 from ..cfg import CFG, assigned_value
-from ..lib import (params, returns_of, is_none_const, dominating_literals)
+from ..lib import (params, returns_of, is_none_const, dominating_literals, has_pattern, find_pattern)
 from . import storefam as S
 from .cachefam import on_every_path
 
@@ -250,7 +250,7 @@ def rule_union_views(chk, rid):
     chk.ob(rid, f"{mp.qual}.keys", ok, "shadow filter compares against mount prefixes extended with '/' (component boundary)" if ok else
            "shadow filter collects bare mount names: a sibling whose name merely starts with a mount name disappears from keys()",
            apps[0] if apps else ks, mod, key="shadow-boundary")
-    chk.ob(rid, f"{mp.qual}.keys", "any((key.startswith(p) for p in prefixes))" in U(ks), "default-store keys under a mount prefix are suppressed", ks, mod, key="shadow")
+    chk.ob(rid, f"{mp.qual}.keys", has_pattern(ks, "any((_K.startswith(_P) for _P in _PS))"), "default-store keys under a mount prefix are suppressed", ks, mod, key="shadow")
 
 
 def is_boolish(e, fn_name):
